@@ -70,7 +70,7 @@ func run(raw json.RawMessage) driver.Result {
 			fmt.Fprintf(os.Stderr, "T%s raw=%v chain=%s: %s %v\n", tto.Class(), in.Raw, xf.ChainKinds(chain), tto.PanicMsg, tto.Err)
 		}
 		return driver.Result{
-			Coq: fmt.Sprintf("XCase %d %s %s %s [] [] (Err 0)", mode, rty.TyTerm(t), xf.ChainTerm(chain), xf.TypeOutcome(tto)),
+			Coq:  fmt.Sprintf("XCase %d %s %s %s [] [] (Err 0)", mode, rty.TyTerm(t), xf.ChainTerm(chain), xf.TypeOutcome(tto)),
 			Kind: in.K + "-notranslate", Tags: tags,
 		}
 	}
@@ -171,6 +171,6 @@ func main() {
 	driver.Main(driver.Engine{
 		Prop: prop, CoqImport: "Dials.Check.C10Check", CoqRun: "run_cases",
 		Rule: "random struct types with globally unique field names (nesting, *struct, embedded value/pointer structs, []struct, [2]struct, map[string]struct, maps, sets map[T]struct{}, durations, TextUnmarshaler structs, named scalars/slices/maps, user pointers, dials/dialsdesc tags, alias tags of the chain's tag families on random fields incl. struct-typed ones), pointerified (1/16 raw, then with unexported fields); random chain = a shipped chain (env, flag, pflag, json/cue, yaml with/without anonymous-flatten, toml, ez's decoder wrap with each field-name encoder), three mixed chains covering every mangler, or a sub-chain of one of them; every translated top-level field filled with a per-case probability in {1/4..1}, nested pointers nil with probability 1/4, 1/6 of the filled fields SET TO THE ZERO VALUE of their type (non-nil pointer to false/0/\"\", empty non-nil slice or map; string-cast texts false / 0 / empty / 0s), string-cast fields with texts drawn for their original type (1/12 malformed); parse.String outcomes for the texts handed to the model as a table; non-trivial: chain contains a 1->n mangler (alias, flatten, anonymous-flatten) and non-nil leaves were written at >= 2 different depths; distinct = distinct PRNG case states",
-		Gen: gen, Run: run,
+		Gen:  gen, Run: run,
 	})
 }
